@@ -100,6 +100,8 @@ def replay(arg):
             idx = 0 if r is None else 1 + [i for i, f in enumerate(real) if f is r][0]
             if idx not in out["lookup"]:
                 mism.append(("lookup", "get_now_frame returned frame %d, specification %s (0 = nothing)" % (idx, sorted(out["lookup"])), rep))
+            snap = [(f.unix_time, [(o.uuid, tuple(o.state.position), tuple(o.state.orientation.elements)) for o in f.objects],
+                     {str(k): m.matrix.copy() for k, m in f.transforms.items()}) for f in real]
             ri = get_interpolated_now_frame(real, tq, tolq)
             sp = out["interp"]
             if sp["kind"] == "none":
@@ -113,6 +115,14 @@ def replay(arg):
                     mism.append(("interp-wrong-neighbour", "interpolating lookup returned another frame than %d" % sp["idx"], rep))
             else:
                 check_interp(ri, sp, real, rep, mism, tag)
+                # the same query again, and a query at the before-neighbour's own time, on the SAME loaded frames
+                check_interp(get_interpolated_now_frame(real, tq, tolq), sp, real, rep, mism, ":second-lookup")
+            for f, (t0_, objs0, tf0) in zip(real, snap):
+                now = [(o.uuid, tuple(o.state.position), tuple(o.state.orientation.elements)) for o in f.objects]
+                tfn = {str(k): m.matrix for k, m in f.transforms.items()}
+                if f.unix_time != t0_ or now != objs0 or set(tfn) != set(tf0) or any(abs(tfn[k] - tf0[k]).max() > 1e-12 for k in tf0):
+                    mism.append(("lookup-modified-loaded-frame", "a lookup changed a loaded ground-truth frame (objects or transforms)", rep))
+                    break
             # through the manager
             if _MGR is None:
                 from .pipeline import T2, manager_for
